@@ -34,14 +34,15 @@
     exponentiation, early cut-off, repeated-division logarithm) equal the mathematical objects.
 
   Hypotheses.  Well-formed operands, `1 ≤ n`; unsigned pow needs `1 ≤ w`, everything signed `2 ≤ w`.
-  The logarithms other than `ilog2` divide by multi-digit numbers, so they are stated relative to
-  `UDivSpec w n` ("`div_rem_unchecked` returns quotient and remainder on `n`-digit operands",
-  Lemmas/Div.lean: proved outright for `n = 1` (`UDivSpec_one`), and equivalent to correctness of
-  Knuth's Algorithm D for `n ≥ 2`), and assume `w * n < 2^32` (`BITS` fits `ExpType = u32`, which the
-  crate itself assumes) so that the `u32` counter arithmetic of `iilog` cannot overflow.
-  `ilog10` needs `10 < 2^w` (`TEN` is one digit; every real digit type has `w ≥ 8`).
+  The logarithms other than `ilog2` divide by multi-digit numbers; they use `udivspec`
+  (`div_rem_unchecked` returns quotient and remainder — C03, through Knuth's Algorithm D proved in
+  Lemmas/KnuthD.lean; the lemmas in Lemmas/Pow.lean take it as the hypothesis `UDivSpec w n`).
+  They assume `w * n < 2^32` (`BITS` fits `ExpType = u32`, which the crate itself assumes) so that
+  the `u32` counter arithmetic of `iilog` provably cannot overflow.  `ilog10` needs `10 < 2^w`
+  (`TEN` is one digit; every real digit type has `w ≥ 8`).
 -/
 import Bnum.Lemmas.Pow
+import Bnum.Lemmas.KnuthD
 
 namespace Bnum.C08
 open Bnum
@@ -197,19 +198,26 @@ theorem i_pow {w n : Nat} {a : List Nat} (hw : 2 ≤ w) (hn : 1 ≤ n) (ha : WF 
 theorem log_is_greatest {b a : Nat} (hb : 2 ≤ b) (ha : 1 ≤ a) :
     b ^ Nat.log b a ≤ a ∧ ∀ k, b ^ k ≤ a → k ≤ Nat.log b a := Ilog.log_greatest hb ha
 
-/-- the hypothesis `UDivSpec` is satisfiable: it holds outright for single-digit integers -/
-example : UDivSpec 8 1 := UDivSpec_one (by decide)
+/-- `BUint::div_rem_unchecked` returns quotient and remainder on all operands (C03; the multi-digit
+    path is Knuth's Algorithm D, proved in Lemmas/KnuthD.lean) — the fact the logarithms rest on -/
+theorem udivspec {w n : Nat} (hw : 1 ≤ w) (hn : 1 ≤ n) : UDivSpec w n :=
+  UDivSpec_of_KnuthD (KDL.knuthD_correct hw) hw hn
+
+theorem one_le_of_ten {w : Nat} (h10 : 10 < B w) : 1 ≤ w := by
+  rcases Nat.eq_zero_or_pos w with h | h
+  · subst h; simp [B] at h10
+  · exact h
 
 /-- `BUint::iilog(m, b, k)`: terminates within fuel `k + 1`, no internal panic in either build mode,
     result `(m (log_b k + 1), ⌊k / b^(log_b k)⌋)` -/
-theorem iilog_spec {w n : Nat} (hD : UDivSpec w n) (dbg : Bool) (f m : Nat) {b k : List Nat}
+theorem iilog_spec {w n : Nat} (hw : 1 ≤ w) (hn : 1 ≤ n) (dbg : Bool) (f m : Nat) {b k : List Nat}
     (hb : WF w n b) (hk : WF w n k) (hb2 : 2 ≤ U w b) (hbk : U w b * U w k < M w n)
     (hf : U w k < f) (hm : m * (Nat.log (U w b) (U w k) + 1) < 2 ^ 32) :
     ∃ q, UI.iilog dbg w f m b k = .ok (m * (Nat.log (U w b) (U w k) + 1), q) ∧ WF w n q ∧
       U w q = U w k / U w b ^ Nat.log (U w b) (U w k) :=
-  Ilog.iilog_spec hD dbg f m b k hb hk hb2 hbk hf hm
-example : WF 8 2 [10, 0] ∧ WF 8 2 [100, 0] ∧ UI.iilog true 8 101 1 [10, 0] [100, 0] = .ok (3, [1, 0]) := by
-  decide
+  Ilog.iilog_spec (udivspec hw hn) dbg f m b k hb hk hb2 hbk hf hm
+example : WF 8 2 [10, 0] ∧ WF 8 2 [100, 0] ∧
+    UI.iilog true 8 101 1 [10, 0] [100, 0] = .ok (3, [1, 0]) := by decide
 
 /-- `BUint::checked_ilog2` (`bits() - 1`) -/
 theorem u_checked_ilog2 {w n : Nat} {a : List Nat} (ha : WF w n a) :
@@ -219,21 +227,26 @@ example : UI.checkedIlog2 8 [0, 128] = some 15 ∧ UI.checkedIlog2 8 [0, 0] = no
 
 /-- `BUint::checked_ilog`: `Some(⌊log_base self⌋)` iff `self ≥ 1 ∧ base ≥ 2`, else `None`;
     never a panic, in either build mode -/
-theorem u_checked_ilog {w n : Nat} (hw : 2 ≤ w) (hn : 1 ≤ n) (hD : UDivSpec w n)
+theorem u_checked_ilog {w n : Nat} (hw : 2 ≤ w) (hn : 1 ≤ n)
     (hW : w * n < 2 ^ 32) {a b : List Nat} (ha : WF w n a) (hb : WF w n b) (dbg : Bool) :
     UI.checkedIlog dbg w a b =
       .ok (if 1 ≤ U w a ∧ 2 ≤ U w b then some (Nat.log (U w b) (U w a)) else none) :=
-  UI.checkedIlog_spec hw hn hD hW ha hb dbg
+  UI.checkedIlog_spec hw hn (udivspec (by omega) hn) hW ha hb dbg
 example : UI.checkedIlog true 8 [232, 3] [10, 0] = .ok (some 3) ∧
     UI.checkedIlog true 8 [231, 3] [10, 0] = .ok (some 2) ∧
     UI.checkedIlog true 8 [231, 3] [1, 0] = .ok none ∧
     UI.checkedIlog true 8 [0, 0] [10, 0] = .ok none := by decide
+/-- all hypotheses of `u_checked_ilog` are jointly satisfiable -/
+example : UI.checkedIlog true 8 [200, 1] [3, 0] =
+    .ok (if 1 ≤ U 8 [200, 1] ∧ 2 ≤ U 8 [3, 0] then some (Nat.log (U 8 [3, 0]) (U 8 [200, 1]))
+      else none) :=
+  u_checked_ilog (w := 8) (n := 2) (by decide) (by decide) (by decide) (by decide) (by decide) true
 
 /-- `BUint::checked_ilog10` -/
-theorem u_checked_ilog10 {w n : Nat} (h10 : 10 < B w) (hn : 1 ≤ n) (hD : UDivSpec w n)
+theorem u_checked_ilog10 {w n : Nat} (h10 : 10 < B w) (hn : 1 ≤ n)
     (hW : w * n < 2 ^ 32) {a : List Nat} (ha : WF w n a) (dbg : Bool) :
     UI.checkedIlog10 dbg w a = .ok (if 1 ≤ U w a then some (Nat.log 10 (U w a)) else none) :=
-  UI.checkedIlog10_spec h10 hn hD hW ha dbg
+  UI.checkedIlog10_spec h10 hn (udivspec (one_le_of_ten h10) hn) hW ha dbg
 example : 10 < B 8 ∧ UI.checkedIlog10 true 8 [255, 255] = .ok (some 4) := by decide
 
 /-- `BUint::ilog2` -/
@@ -241,26 +254,27 @@ theorem u_ilog2 {w n : Nat} {a : List Nat} (ha : WF w n a) :
     UI.ilog2 w a = if 1 ≤ U w a then .ok (Nat.log 2 (U w a)) else .panic := UI.ilog2_spec ha
 
 /-- `BUint::ilog10` -/
-theorem u_ilog10 {w n : Nat} (h10 : 10 < B w) (hn : 1 ≤ n) (hD : UDivSpec w n)
+theorem u_ilog10 {w n : Nat} (h10 : 10 < B w) (hn : 1 ≤ n)
     (hW : w * n < 2 ^ 32) {a : List Nat} (ha : WF w n a) (dbg : Bool) :
     UI.ilog10 dbg w a = if 1 ≤ U w a then .ok (Nat.log 10 (U w a)) else .panic :=
-  UI.ilog10_spec h10 hn hD hW ha dbg
+  UI.ilog10_spec h10 hn (udivspec (one_le_of_ten h10) hn) hW ha dbg
 
 /-- `BUint::ilog` -/
-theorem u_ilog {w n : Nat} (hw : 2 ≤ w) (hn : 1 ≤ n) (hD : UDivSpec w n)
+theorem u_ilog {w n : Nat} (hw : 2 ≤ w) (hn : 1 ≤ n)
     (hW : w * n < 2 ^ 32) {a b : List Nat} (ha : WF w n a) (hb : WF w n b) (dbg : Bool) :
     UI.ilog dbg w a b =
       if 1 ≤ U w a ∧ 2 ≤ U w b then .ok (Nat.log (U w b) (U w a)) else .panic :=
-  UI.ilog_spec hw hn hD hW ha hb dbg
+  UI.ilog_spec hw hn (udivspec (by omega) hn) hW ha hb dbg
 example : UI.ilog true 8 [231, 3] [1, 0] = .panic ∧ UI.ilog true 8 [0, 0] [3, 0] = .panic ∧
     UI.ilog false 8 [231, 3] [3, 0] = .ok 6 := by decide
 
 /-- the panicking unsigned forms panic exactly when the checked form is `None` -/
-theorem u_ilog_panic_iff {w n : Nat} (hw : 2 ≤ w) (hn : 1 ≤ n) (hD : UDivSpec w n)
+theorem u_ilog_panic_iff {w n : Nat} (hw : 2 ≤ w) (hn : 1 ≤ n)
     (hW : w * n < 2 ^ 32) {a b : List Nat} (ha : WF w n a) (hb : WF w n b) (dbg : Bool) :
     (UI.ilog dbg w a b = .panic ↔ UI.checkedIlog dbg w a b = .ok none) ∧
     (UI.ilog2 w a = .panic ↔ UI.checkedIlog2 w a = none) := by
-  rw [UI.ilog_spec hw hn hD hW ha hb dbg, UI.checkedIlog_spec hw hn hD hW ha hb dbg,
+  rw [UI.ilog_spec hw hn (udivspec (by omega) hn) hW ha hb dbg,
+    UI.checkedIlog_spec hw hn (udivspec (by omega) hn) hW ha hb dbg,
     UI.ilog2_spec ha, Ilog.checkedIlog2_eq ha]
   constructor
   · by_cases h : 1 ≤ U w a ∧ 2 ≤ U w b <;> simp [h]
@@ -268,26 +282,27 @@ theorem u_ilog_panic_iff {w n : Nat} (hw : 2 ≤ w) (hn : 1 ≤ n) (hD : UDivSpe
     · simp [h]
     · simp [h]
 
-theorem u_ilog10_panic_iff {w n : Nat} (h10 : 10 < B w) (hn : 1 ≤ n) (hD : UDivSpec w n)
-    (hW : w * n < 2 ^ 32) {a : List Nat} (ha : WF w n a) (dbg : Bool) :
+theorem u_ilog10_panic_iff {w n : Nat} (h10 : 10 < B w) (hn : 1 ≤ n) (hW : w * n < 2 ^ 32)
+    {a : List Nat} (ha : WF w n a) (dbg : Bool) :
     UI.ilog10 dbg w a = .panic ↔ UI.checkedIlog10 dbg w a = .ok none := by
-  rw [UI.ilog10_spec h10 hn hD hW ha dbg, UI.checkedIlog10_spec h10 hn hD hW ha dbg]
+  rw [UI.ilog10_spec h10 hn (udivspec (one_le_of_ten h10) hn) hW ha dbg,
+    UI.checkedIlog10_spec h10 hn (udivspec (one_le_of_ten h10) hn) hW ha dbg]
   by_cases h : 1 ≤ U w a <;> simp [h]
 
 /-- `BInt::checked_ilog`: `None` exactly when `self ≤ 0` or `base < 2` -/
-theorem i_checked_ilog {w n : Nat} (hw : 2 ≤ w) (hn : 1 ≤ n) (hD : UDivSpec w n)
+theorem i_checked_ilog {w n : Nat} (hw : 2 ≤ w) (hn : 1 ≤ n)
     (hW : w * n < 2 ^ 32) {a b : List Nat} (ha : WF w n a) (hb : WF w n b) (dbg : Bool) :
     II.checkedIlog dbg w a b =
       .ok (if 1 ≤ S w a ∧ 2 ≤ S w b then some (Nat.log (S w b).toNat (S w a).toNat) else none) :=
-  II.checkedIlog_spec hw hn hD hW ha hb dbg
+  II.checkedIlog_spec hw hn (udivspec (by omega) hn) hW ha hb dbg
 example : II.checkedIlog true 8 [232, 3] [246, 255] = .ok none ∧
     II.checkedIlog true 8 [232, 3] [10, 0] = .ok (some 3) ∧
     II.checkedIlog true 8 [24, 252] [10, 0] = .ok none := by decide
 
-theorem i_checked_ilog_none_iff {w n : Nat} (hw : 2 ≤ w) (hn : 1 ≤ n) (hD : UDivSpec w n)
+theorem i_checked_ilog_none_iff {w n : Nat} (hw : 2 ≤ w) (hn : 1 ≤ n)
     (hW : w * n < 2 ^ 32) {a b : List Nat} (ha : WF w n a) (hb : WF w n b) (dbg : Bool) :
     II.checkedIlog dbg w a b = .ok none ↔ (S w a ≤ 0 ∨ S w b < 2) := by
-  rw [II.checkedIlog_spec hw hn hD hW ha hb dbg]
+  rw [II.checkedIlog_spec hw hn (udivspec (by omega) hn) hW ha hb dbg]
   by_cases h : 1 ≤ S w a ∧ 2 ≤ S w b
   · simp [h]; omega
   · simp [h]; omega
@@ -299,17 +314,17 @@ theorem i_checked_ilog2 {w n : Nat} (hw : 2 ≤ w) (hn : 1 ≤ n) {a : List Nat}
 
 /-- `BInt::checked_ilog10` -/
 theorem i_checked_ilog10 {w n : Nat} (hw : 2 ≤ w) (h10 : 10 < B w) (hn : 1 ≤ n)
-    (hD : UDivSpec w n) (hW : w * n < 2 ^ 32) {a : List Nat} (ha : WF w n a) (dbg : Bool) :
+    (hW : w * n < 2 ^ 32) {a : List Nat} (ha : WF w n a) (dbg : Bool) :
     II.checkedIlog10 dbg w a =
       .ok (if 1 ≤ S w a then some (Nat.log 10 (S w a).toNat) else none) :=
-  II.checkedIlog10_spec hw h10 hn hD hW ha dbg
+  II.checkedIlog10_spec hw h10 hn (udivspec (by omega) hn) hW ha dbg
 
 /-- `BInt::ilog`: panics exactly when `checked_ilog` is `None` (`self ≤ 0` or `base < 2`) -/
-theorem i_ilog {w n : Nat} (hw : 2 ≤ w) (hn : 1 ≤ n) (hD : UDivSpec w n)
+theorem i_ilog {w n : Nat} (hw : 2 ≤ w) (hn : 1 ≤ n)
     (hW : w * n < 2 ^ 32) {a b : List Nat} (ha : WF w n a) (hb : WF w n b) (dbg : Bool) :
     II.ilog dbg w a b =
       if 1 ≤ S w a ∧ 2 ≤ S w b then .ok (Nat.log (S w b).toNat (S w a).toNat) else .panic :=
-  II.ilog_spec hw hn hD hW ha hb dbg
+  II.ilog_spec hw hn (udivspec (by omega) hn) hW ha hb dbg
 example : II.ilog true 8 [24, 252] [3, 0] = .panic ∧ II.ilog true 8 [232, 3] [3, 0] = .ok 6 := by
   decide
 
@@ -320,24 +335,26 @@ theorem i_ilog2 {w n : Nat} (hw : 2 ≤ w) (hn : 1 ≤ n) {a : List Nat} (ha : W
 
 /-- `BInt::ilog10` -/
 theorem i_ilog10 {w n : Nat} (hw : 2 ≤ w) (h10 : 10 < B w) (hn : 1 ≤ n)
-    (hD : UDivSpec w n) (hW : w * n < 2 ^ 32) {a : List Nat} (ha : WF w n a) (dbg : Bool) :
+    (hW : w * n < 2 ^ 32) {a : List Nat} (ha : WF w n a) (dbg : Bool) :
     II.ilog10 dbg w a = if 1 ≤ S w a then .ok (Nat.log 10 (S w a).toNat) else .panic :=
-  II.ilog10_spec hw h10 hn hD hW ha dbg
+  II.ilog10_spec hw h10 hn (udivspec (by omega) hn) hW ha dbg
 
-theorem i_ilog_panic_iff {w n : Nat} (hw : 2 ≤ w) (hn : 1 ≤ n) (hD : UDivSpec w n)
+theorem i_ilog_panic_iff {w n : Nat} (hw : 2 ≤ w) (hn : 1 ≤ n)
     (hW : w * n < 2 ^ 32) {a b : List Nat} (ha : WF w n a) (hb : WF w n b) (dbg : Bool) :
     (II.ilog dbg w a b = .panic ↔ II.checkedIlog dbg w a b = .ok none) ∧
     (II.ilog2 w a = .panic ↔ II.checkedIlog2 w a = none) := by
-  rw [II.ilog_spec hw hn hD hW ha hb dbg, II.checkedIlog_spec hw hn hD hW ha hb dbg,
+  rw [II.ilog_spec hw hn (udivspec (by omega) hn) hW ha hb dbg,
+    II.checkedIlog_spec hw hn (udivspec (by omega) hn) hW ha hb dbg,
     II.ilog2_spec hw hn ha, II.checkedIlog2_spec hw hn ha]
   constructor
   · by_cases h : 1 ≤ S w a ∧ 2 ≤ S w b <;> simp [h]
   · by_cases h : 1 ≤ S w a <;> simp [h]
 
 theorem i_ilog10_panic_iff {w n : Nat} (hw : 2 ≤ w) (h10 : 10 < B w) (hn : 1 ≤ n)
-    (hD : UDivSpec w n) (hW : w * n < 2 ^ 32) {a : List Nat} (ha : WF w n a) (dbg : Bool) :
+    (hW : w * n < 2 ^ 32) {a : List Nat} (ha : WF w n a) (dbg : Bool) :
     II.ilog10 dbg w a = .panic ↔ II.checkedIlog10 dbg w a = .ok none := by
-  rw [II.ilog10_spec hw h10 hn hD hW ha dbg, II.checkedIlog10_spec hw h10 hn hD hW ha dbg]
+  rw [II.ilog10_spec hw h10 hn (udivspec (by omega) hn) hW ha dbg,
+    II.checkedIlog10_spec hw h10 hn (udivspec (by omega) hn) hW ha dbg]
   by_cases h : 1 ≤ S w a <;> simp [h]
 
 /-! ## the executable specifications (Spec/Pow.lean) compute the mathematical objects -/
